@@ -150,10 +150,10 @@ def grep_escape_hatches() -> list[str]:
   return hits
 
 
-def leanchecker(prop: str) -> dict:
+def leanchecker(prop: str, modules=None) -> dict:
   """thorough tier: independent re-check of the compiled proofs (all QKV modules the property
   theorems depend on) with the toolchain's `leanchecker`"""
-  mods = ["QKV.Props." + prop]
+  mods = list(modules or ["QKV.Props." + prop])
   for sub in ("Lemmas", "Model"):
     d = os.path.join(LEAN_DIR, "QKV", sub)
     if os.path.isdir(d):
@@ -170,15 +170,16 @@ def leanchecker(prop: str) -> dict:
           "log": (p.stdout + p.stderr)[-1500:] if p.returncode != 0 else ""}
 
 
-def audit(prop: str) -> dict:
-  """build the proofs of `prop` and list every theorem of QKV.Props.<prop> with its axioms.
+def audit(prop: str, modules=None, prefixes=None) -> dict:
+  """build the proofs of `prop` and list every theorem of its Props module(s) with its axioms.
 
   Returns {ok, obligations:[{name, axioms, ok}], build_log, escapes}."""
-  mod = "QKV.Props." + prop
-  ok, log = lake_build([mod])
-  res = {"module": mod, "build_ok": ok, "build_log": log[-4000:] if not ok else "", "obligations": [],
-         "escapes": grep_escape_hatches()}
-  if ok:
+  modules = modules or ["QKV.Props." + prop]
+  prefixes = tuple(prefixes or [prop + "_"])
+  ok, log = lake_build(modules)
+  res = {"module": ",".join(modules), "build_ok": ok, "build_log": log[-4000:] if not ok else "",
+         "obligations": [], "escapes": grep_escape_hatches()}
+  for mod in modules if ok else []:
     p = subprocess.run(["lake", "env", "lean", "--run", "drivers/Audit.lean", mod], cwd=LEAN_DIR,
                        capture_output=True, text=True)
     if p.returncode != 0:
@@ -192,7 +193,7 @@ def audit(prop: str) -> dict:
         o = json.loads(line)
         # property theorems are named <prop>_...; structure projections / private helpers of the
         # Props file are not obligations themselves (their axioms surface in the theorems using them)
-        if not o["name"].split(".")[-1].startswith(prop + "_"):
+        if not o["name"].split(".")[-1].startswith(prefixes):
           continue
         o["ok"] = set(o["axioms"]) <= ALLOWED_AXIOMS
         res["obligations"].append(o)
@@ -375,8 +376,9 @@ class Run:
     cov = {
         "obligations": len(obl),
         "discharged": sum(1 for o in obl if o["ok"]) if (self.audit and self.audit["build_ok"] and not self.audit["escapes"]) else 0,
-        "checker_cmd": "cd lean && lake build QKV.Props.%s && lake env lean --run drivers/Audit.lean QKV.Props.%s"
-                       % (self.prop, self.prop),
+        "checker_cmd": "cd lean && lake build %s && for m in %s; do lake env lean --run drivers/Audit.lean $m; done"
+                       % ((self.audit or {}).get("module", "QKV.Props." + self.prop).replace(",", " "),
+                          (self.audit or {}).get("module", "QKV.Props." + self.prop).replace(",", " ")),
         "trusted_base": GLOBAL_TRUSTED_BASE + self.assumptions,
         "theorems": [{"name": o["name"], "axioms": o["axioms"]} for o in obl],
         "evaluations": self.evaluations,
